@@ -135,6 +135,7 @@ private:
 };
 
 template <
+    bool SendsDone,
     template <typename...>
     class Variant,
     template <typename...>
@@ -146,6 +147,19 @@ struct error_variant {
       ValueTuples...,
       Tuple<tag_t<set_error>, Errors>...,
       Tuple<tag_t<set_done>>>;
+};
+
+// a source that never completes with done never produces set_value(set_done)
+template <
+    template <typename...>
+    class Variant,
+    template <typename...>
+    class Tuple,
+    typename... ValueTuples>
+struct error_variant<false, Variant, Tuple, ValueTuples...> {
+  template <typename... Errors>
+  using apply =
+      Variant<ValueTuples..., Tuple<tag_t<set_error>, Errors>...>;
 };
 
 template <
@@ -161,7 +175,11 @@ struct value_types {
   template <typename... ValueTuples>
   using value_variant = sender_error_types_t<
       Source,
-      error_variant<Variant, Tuple, ValueTuples...>::template apply>;
+      error_variant<
+          sender_traits<Source>::sends_done,
+          Variant,
+          Tuple,
+          ValueTuples...>::template apply>;
 
   using type = sender_value_types_t<Source, value_variant, value_tuple>;
 };
